@@ -129,8 +129,13 @@ Record tsfacts := mkTs {
   ts_desc_name : string;               (* "record/timestamp" *)
   ts_k1 : string; ts_t1 : string;      (* first field: receives the timestamp value *)
   ts_k2 : string; ts_t2 : string;      (* second field: receives the field name *)
-  ts_select : string                   (* record._desc.getfields(<this typename>) *)
+  ts_select : string;                  (* record._desc.getfields(<this typename>) *)
+  ts_meta : list string                (* slots copied from the original record onto every output:
+                                          `record.<slot> = original_record.<slot>` after the extension *)
 }.
+(* the behaviour before the repair 4a5ea6a: no metadata copied *)
+Definition unfix_meta (T : tsfacts) : tsfacts :=
+  mkTs (ts_desc_name T) (ts_k1 T) (ts_t1 T) (ts_k2 T) (ts_t2 T) (ts_select T) [].
 
 (* ---------------------------------------------------------------------------------------------- *)
 Section Model.
@@ -185,13 +190,13 @@ Definition ref_extend (replace : bool) (name : option string) (r : rec) (others 
 
 (* one output per field of the selected type: ts = the ORIGINAL record's value of that field,
    ts_description = its name, then every original field not called like the two, unchanged and in order;
-   the reserved slots are those of the timestamp record (the property does not speak about them) *)
+   the reserved slots are the original record's (_version stamped by the constructor) *)
 Definition not_ts (f : fld) : bool := negb (String.eqb (fname f) (ts_k1 TS)) && negb (String.eqb (fname f) (ts_k2 TS)).
 Definition ts_fields (r : rec) : list fld := filter (fun f => String.eqb (ftype f) (ts_select TS)) (rfields r).
 Definition ref_expand_one (r : rec) (f : fld) : rec :=
   mkRec (rname r)
         ((ts_k1 TS, (ts_t1 TS, fval f)) :: (ts_k2 TS, (ts_t2 TS, vname (fname f))) :: filter not_ts (rfields r))
-        (restamp tsres).
+        (restamp (rres r)).
 Definition ref_expand (r : rec) : list rec :=
   match ts_fields r with
   | [] => [r]
@@ -273,6 +278,15 @@ Definition extend (replace : bool) (name : option string) (r : rec) (others : li
                  (merge_descs replace (map desc_of rs))
                  (fun k => chain_get k (if replace then rev maps else maps)).
 
+(* setattr(record, k, v) on a slot *)
+Definition rec_set (r : rec) (k : string) (v : V) : rec :=
+  mkRec (rname r)
+        (map (fun f => if String.eqb k (fname f) then (fname f, (ftype f, v)) else f) (rfields r))
+        (map (fun p => if String.eqb k (fst p) then v else snd p) (combine res_names (rres r))).
+(* record.<slot> = original_record.<slot> for the generated list of slots *)
+Definition copy_meta (orig out : rec) : rec :=
+  fold_left (fun o k => rec_set o k (attr orig k)) (ts_meta TS) out.
+
 (* iter_timestamped_records; prev = the loop extends the record it yielded before (the re-binding of `record`) *)
 Definition ts_record (v : V) (n : string) : rec :=
   mkRec (ts_desc_name TS) [(ts_k1 TS, (ts_t1 TS, v)); (ts_k2 TS, (ts_t2 TS, vname n))] tsres.
@@ -280,8 +294,8 @@ Fixpoint expand_loop (prev : bool) (orig cur : rec) (fs : list fld) : list rec :
   match fs with
   | [] => []
   | f :: fs' =>
-      let out := extend false (Some (rname orig)) (ts_record (attr orig (fname f)) (fname f))
-                        [if prev then cur else orig] in
+      let out := copy_meta orig (extend false (Some (rname orig)) (ts_record (attr orig (fname f)) (fname f))
+                                        [if prev then cur else orig]) in
       out :: expand_loop prev orig out fs'
   end.
 Definition iter_timestamped (prev : bool) (r : rec) : list rec :=
@@ -328,11 +342,6 @@ Definition group_view (g : group) : rec :=
         (map (fun e => (fst e, (snd e, slot_value (group_get g) e))) (gflat g))
         (map (slot_value (group_get g)) RES).
 
-(* setattr(record, k, v) on a slot *)
-Definition rec_set (r : rec) (k : string) (v : V) : rec :=
-  mkRec (rname r)
-        (map (fun f => if String.eqb k (fname f) then (fname f, (ftype f, v)) else f) (rfields r))
-        (map (fun p => if String.eqb k (fst p) then v else snd p) (combine res_names (rres r))).
 Definition group_set (g : group) (k : string) (v : V) : group :=
   match assoc k (gtab g) with
   | Some ti => mkGroup (gname g) (upd_nth (snd ti) (fun m => rec_set m k v) (gmembers g)) (gtab g)
@@ -409,7 +418,10 @@ Definition arg_ok (a : garg) : Prop :=
   match a with ARec r => wf r | AGrp g => group_ok g /\ gmembers g <> [] end.
 (* side conditions on the generated tables, as a boolean *)
 Definition tables_ok : bool :=
-  nodupb res_names && negb (String.eqb (ts_k1 TS) (ts_k2 TS)) && negb (mem (ts_k1 TS) res_names) && negb (mem (ts_k2 TS) res_names).
+  nodupb res_names && negb (String.eqb (ts_k1 TS) (ts_k2 TS)) && negb (mem (ts_k1 TS) res_names) && negb (mem (ts_k2 TS) res_names)
+  (* every reserved slot except _version is copied from the original record, and nothing else is *)
+  && forallb (fun e => Bool.eqb (mem (fst e) (ts_meta TS)) (negb (String.eqb (fst e) "_version"))) RES
+  && forallb (fun k => mem k res_names) (ts_meta TS).
 
 (* ============================== P-MODEL ============================== *)
 Section PModel.
@@ -446,10 +458,11 @@ Fixpoint p_expand_loop (prev : bool) (orig cur : rec) (fs : list fld) : option (
       match p_extend false (Some (rname orig)) (ts_record (attr src (fname f)) (fname f))
                      [if prev then cur else orig] with
       | None => None
-      | Some out => match p_expand_loop prev orig out fs' with
-                    | None => None
-                    | Some t => Some (out :: t)
-                    end
+      | Some out0 => let out := copy_meta orig out0 in
+                     match p_expand_loop prev orig out fs' with
+                     | None => None
+                     | Some t => Some (out :: t)
+                     end
       end
   end.
 Definition p_iter_timestamped (prev : bool) (r : rec) : option (list rec) :=
